@@ -146,6 +146,46 @@ Definition twoline_ok_m (t : mtext) (W H shrink border : Z) (d : list Z) (sw1 sw
 Definition twoline_ok (t : mtext) (W H shrink border : Z) (d : list Z) : bool :=
   twoline_ok_m t W H shrink border d (line_width t (x_l1 t)) (line_width t (x_l2 t)) (line_h t) (size_step t).
 
+(* ---- the TEXT of a centred line is all there: the columns that carry ink in the line's rows are exactly
+   the ink columns of the string set in the line's font and size (the glyphs of the regenerated font
+   tables, placed by their advances - Mono.render_text on a canvas wide enough that nothing clips), moved
+   to one of the two start columns that "centred to within one pixel" allows.  A glyph that is dropped or
+   cut (seed C18-8: the last glyph of an exactly fitting line) leaves the metric box but not this. ---- *)
+Definition text_canvas (t : mtext) (s : list Z) : img :=
+  let ts := centre_tstate t in
+  let w := Z.max 8 (line_width t s + size_step t + 16) in
+  let i0 := new_image w (Z.max 1 (line_h t)) in
+  run_op (with_t i0 (mkT (tfont ts) (tprop ts) (tspacing ts) 0 0 true true (tsh ts) (tsv ts) false)) (OText s).
+
+(* does column c carry ink in rows [rlo, rhi) ? *)
+Definition col_lit (W : Z) (d : list Z) (rlo rhi c : Z) : bool :=
+  existsb (fun r => px (wib_of W) d c (rlo + Z.of_nat r)) (seq 0 (Z.to_nat (rhi - rlo))).
+
+Definition profile_matches (W : Z) (d : list Z) (rlo rhi : Z) (ti : img) (x0 : Z) : bool :=
+  let tw := gW (ig ti) in
+  forallb (fun cn => let c := Z.of_nat cn in
+             Bool.eqb (col_lit W d rlo rhi c)
+                      ((x0 <=? c) && (c - x0 <? tw) && col_lit tw (idata ti) 0 (gH (ig ti)) (c - x0)))
+          (seq 0 (Z.to_nat (8 * wib_of W))).
+
+Definition line_ink_ok (t : mtext) (W border aw : Z) (d : list Z) (rlo rhi : Z) (s : list Z) : bool :=
+  let ti := text_canvas t s in
+  let sw := line_width t s in
+  profile_matches W d rlo rhi ti (border + (aw - sw) / 2) || profile_matches W d rlo rhi ti (border + (aw - sw + 1) / 2).
+
+Definition oneline_ink_ok (t : mtext) (W H shrink border : Z) (d : list Z) : bool :=
+  let aw := active_w W shrink border in
+  let ah := active_h H shrink border in
+  negb (oneline_applies t aw ah (line_width t (x_title t)) (line_h t)) || x_inv t ||
+  line_ink_ok t W border aw d 0 H (x_title t).
+
+Definition twoline_ink_ok (t : mtext) (W H shrink border : Z) (d : list Z) : bool :=
+  let aw := active_w W shrink border in
+  let ah := active_h H shrink border in
+  negb (twoline_applies t aw ah (line_width t (x_l1 t)) (line_width t (x_l2 t)) (line_h t)) || x_inv t ||
+  let midrow := border + ah / 2 in
+  line_ink_ok t W border aw d 0 midrow (x_l1 t) && line_ink_ok t W border aw d midrow H (x_l2 t).
+
 (* ---- strength bar: with everything but the value fixed and the value hidden (format 7),
    a larger value never lights fewer pixels (rangeLow < rangeHigh), and mirrored for a
    reversed range; a degenerate range shows no value dependence at all ---- *)
